@@ -199,6 +199,19 @@ def pe : P String := do
       let v := v.failIf (!(eqVec c m.S ev iV)) s!"{comp} not_h_step_policy_value want={showVec ev} got={showVec iV}"
       v.failIf (iVar != 0) s!"{comp} variation_not_zero {ratStr iVar}"
     else v
+  -- tolerance zero, accepted warm start: exactly h sweeps from the supplied values (pe_tol0_warm); this is the call PolicyIteration makes
+  let v := match warm with
+    | some w => if !useTol && warmUsed && !capped then
+        let ev := evalIterFrom m pol w h
+        v.failIf (!(eqVec c m.S ev iV)) s!"{comp} warm_start_not_iterated want={showVec ev} got={showVec iV}"
+      else v
+    | none => v
+  -- a start of the wrong size is ignored: the answer is the one from zeros
+  let v := match warm with
+    | some w => if !useTol && !warmUsed && !capped && w.size != 0 then
+        v.failIf (!(eqVec c m.S (evalIter m pol h) iV)) s!"{comp} wrong_size_start_not_ignored"
+      else v
+    | none => v
   -- V(s) = Σ_a π(s,a) Q(s,a) on the implementation's own Q
   let v := if stepped then
       v.failIf (!(allLt m.S (fun s => eqNum c (iV.get s) (dotTo m.A (iQ.get s) (pol.get s))))) s!"{comp} v_not_pi_dot_q"
